@@ -81,6 +81,11 @@ def run_case(cls, params, rec):
 	model = dls.build(spec, params["wseed"], params.get("weights", "float"))
 	plain = copy.deepcopy(model)
 	X, refs = make_inputs(params)
+	# same values handed over as views into larger storages
+	params, X, xbase = gen.apply_layout(params, rec, X)
+	rbase = None
+	if refs is not None:
+		refs, rbase = gen.relayout(refs, gen.layout_of(params, "refs"))
 	target = params["target"]
 	mp = dls.maxpool_class(spec)
 	has_mp = any(s["t"] == "maxpool" for s in spec)
